@@ -11,6 +11,9 @@ import "strings"
 func c04TagMatches(p, want string) bool {
 	pl := strings.ToLower(p)
 	wl := strings.ToLower(want)
+	if strings.TrimSpace(wl) == "" || strings.TrimSpace(pl) == "" {
+		return false // an empty name names no platform
+	}
 	if wl == "darwin" {
 		wl = "macos"
 	}
@@ -105,7 +108,11 @@ func c04Options() SearchOptions {
 	o.AllPlatforms = verifBool("allPlatforms")
 	o.NoCrossPlatform = verifBool("noCrossPlatform")
 	o.PipelineOnly = verifBool("pipelineOnly")
-	switch verifIntRange("platforms", 0, 3) {
+	switch verifIntRange("platforms", 0, 5) {
+	case 4: // `--platform linux,` parses to a list with an empty element
+		o.Platforms = []string{"linux", ""}
+	case 5:
+		o.Platforms = []string{" "}
 	case 1:
 		o.Platforms = []string{"windows"}
 	case 2:
